@@ -268,6 +268,10 @@ func (c *Context) verifyFunc(fc *FuncContract) (res *FuncResult) {
 		res.undecided = "package not loaded: " + fc.PkgPath
 		return
 	}
+	if fc.Broken != "" {
+		res.undecided = fc.Broken
+		return
+	}
 	fn := c.lookupFunc(sp, fc.Func)
 	if fn == nil || fn.Blocks == nil {
 		res.undecided = "function not found (renamed or removed?)"
